@@ -395,10 +395,12 @@ class Behavior(_IModel):
         scale = self.__yield.scale if self.__yield is not None else 1.0
         floor = 10.0 * self._tol * float(np.max(self.C[..., ZZ, ZZ]))
         tol = max(self._planeStress_tol * max(scale, 1.0), floor)
-        for _ in range(self._maxIter):
+        for it in range(self._maxIter):
             sig6_e_pg, C6_e_pg, _, _ = self.__Integrate_3d(eps6_e_pg, zOld_e_pg, dt)
             r_e_pg = sig6_e_pg[..., ZZ]
-            if np.max(np.abs(r_e_pg)) < tol:
+            # tol is an absolute stress: the starting value eps_zz = 0 must not be accepted on it
+            # (at small strains every stress is below tol), so one correction is always taken
+            if it > 0 and np.max(np.abs(r_e_pg)) < tol:
                 break
             eps_zz = eps6_e_pg[..., ZZ] - r_e_pg / C6_e_pg[..., ZZ, ZZ]
             eps6_e_pg[..., ZZ] = eps_zz
